@@ -26,6 +26,7 @@ def AUTO_NO32 := 0x10
 def AUTO_REXW := 0x20
 def AUTO_VEXL := 0x40
 def SHORT_ARG := 0x40000
+def ENC_VM := 0x100000
 def X86_ONLY := 0x400000
 
 def has (flags bit : Nat) : Bool := flags &&& bit != 0
@@ -77,7 +78,9 @@ def wellFormed (e : Opdata) : Bool :=
     -- the AUTO_* flags are mutually exclusive and need an operand size: `op_size.expect("No wildcard sizes")`
     nauto ≤ 1 && (!anyAuto || !wild.isEmpty) &&
     -- AUTO_VEXL: the operand size must be 16 or 32 bytes, the others: 2, 4 or 8 (`panic!("bad formatting data")`)
-    (!has f AUTO_VEXL || wild.all (fun p => p.1 == c 'y' || p.1 == c 'w' || p.1 == c 'k' || p.1 == c 'l' || p.1 == c 'm')) &&
+    (!has f AUTO_VEXL || (wild.all (fun p => p.1 == c 'y' || p.1 == c 'w' || p.1 == c 'k' || p.1 == c 'l' || p.1 == c 'm') &&
+        -- … and must come from a vector operand: with only `m*` any size keyword matches and 8 bytes reaches the panic
+        wild.any (fun p => p.1 == c 'y' || p.1 == c 'w' || p.1 == c 'k' || p.1 == c 'l'))) &&
     (!(has f AUTO_SIZE || has f AUTO_NO32 || has f AUTO_REXW) ||
         wild.all (fun p => p.1 == c 'r' || p.1 == c 'v' || p.1 == c 'm' || isFixedGp p.1)) &&
     -- at most one wildcard-sized immediate, and only next to a wildcard-sized operand (`im_size.unwrap()`)
@@ -89,6 +92,9 @@ def wellFormed (e : Opdata) : Bool :=
     -- SHORT_ARG encodes a direct register in the last opcode byte
     (!has f SHORT_ARG || (nr ≥ 1 && nm == 0)) &&
     -- the reg digit is an opcode extension 0..7 or absent
-    (e.reg ≤ 7 || e.reg == 255)
+    (e.reg ≤ 7 || e.reg == 255) &&
+    -- an opcode-extension digit occupies ModRM.reg: `extract_args` must not put an operand there, i.e. at most the r/m operand, or
+    -- (ENC_VM) one operand in VEX.vvvv and one in r/m; otherwise the register number silently overwrites the digit
+    (e.reg == 255 || (ns == 0 && (nm + nr ≤ 1 || (nm + nr == 2 && has f ENC_VM))))
 
 end DynasmVerif.X64
